@@ -47,7 +47,7 @@ def run_cases(draw, quick):
         base = draw(st.sampled_from(STABLE + (MORE if not quick else MORE[:4])))
         tf = draw(st.sampled_from([1.0, 2.6, 3.0] if base in ('kundur/kundur_full.xlsx', '5bus/pjm5bus.xlsx') else [1.0, 1.6]))
         return dict(base=base, events=[], tf=tf, cfg=cfg, own=True)
-    base = draw(st.sampled_from(STABLE))
+    base = draw(st.sampled_from(STABLE + ['ieee14/ieee14_solar.xlsx']))
     tf = draw(st.sampled_from([0.8, 1.2]))
     ev = []
     n = draw(st.integers(1, 3))
@@ -56,9 +56,9 @@ def run_cases(draw, quick):
         t = float(round(draw(st.floats(0.05, tf - 0.3)), 4))
         e = dict(kind=kind, t=t, cls='offgrid', u=1, sel=draw(st.integers(0, 60)))
         if kind == 'alter':
-            e.update(target=draw(st.sampled_from(['line_x', 'pq_p0', 'gen_M', 'gen_M'])), method=draw(st.sampled_from(['*', '+'])),
+            e.update(target=draw(st.sampled_from(['line_x', 'pq_p0', 'gen_M', 'gen_M', 'shared_T'])), method=draw(st.sampled_from(['*', '+'])),
                      amount=draw(st.sampled_from([1.1, 0.01])))
-            if e['target'] == 'gen_M':
+            if e['target'] in ('gen_M', 'shared_T'):
                 e.update(method='*', amount=draw(st.sampled_from([0.5, 2.0])))
         if kind == 'fault':
             e['dur'] = draw(st.sampled_from([0.02, 0.05]))
@@ -162,7 +162,7 @@ def check_run(ctx, c):
             i = int(np.argmax(np.where(viol, np.abs(q) / bound, 0)))
             ctx.fail('integration_rule_violated',
                      dict(run=brief, t=rec['t'], h=h, state=dae.x_name[i], q=float(q[i]), bound=float(bound[i]),
-                          x0=float(x0[i]), x1=float(x1[i]), f0=float(f0[i]), f1=float(f1[i]), T=float(Tf[i])),
+                          x0=float(x0[i]), x1=float(x1[i]), f0=float(f0[i]), f1=float(f1[i]), T=float(Tk[i]), T_held_by_solver=float(np.array(dae.Tf)[i])),
                      sig=dict(sig0, first_step=rec['t'] == 0.0))
         worst = max(worst, float(np.max(np.abs(q[mask]) / bound[mask])) if mask.any() else 0.0)
         # algebraic constraints at the accepted point (solver-held g, one iterate behind)
@@ -255,6 +255,15 @@ def camp_rule(ctx):
             ctx.evaluated()
             ctx.count('anchor_time_constant_altered')
             check_run(ctx, c)
+        # anchor: a time constant shared by two differential equations of one device (converter lag of REGCA1) altered
+        # during the run, followed by the case's own line trip
+        c = dict(base='ieee14/ieee14_solar.xlsx', tf=1.4, own=False,
+                 events=[dict(kind='alter', t=0.3, cls='offgrid', u=1, sel=0, target='shared_T', method='*', amount=5.0)],
+                 cfg=dict(method='trapezoid', fixt=1, tstep=1 / 60, g_scale=1, honest=0, tol=1e-8, shrinkt=1, sparselib='klu'))
+        ctx.current_case = c
+        ctx.evaluated()
+        ctx.count('anchor_shared_time_constant_altered')
+        check_run(ctx, c)
     # anchors: every stable stock case with its stock disturbance, both methods, default and tight tolerance
     anchors = [(b, m, tol) for b in STABLE for m in ('trapezoid', 'backeuler') for tol in (1e-4, 1e-8)]
     for k, (b, m, tol) in enumerate(anchors):
